@@ -75,7 +75,32 @@ def main(seed):
             os.remove(os.path.join(wt, place, f))
         for rel in nested:
             os.remove(os.path.join(wt, rel))
-        rct, outt = sh("go test -p 8 -vet=off -count=1 ./... 2>&1 | grep -E '^(FAIL|ok|panic)|--- FAIL' | grep -v '^ok' | head -40", cwd=wt, timeout=3000)
+        # Only packages whose tests can see the change are re-run: a package (or its
+        # test variant) that does not depend, directly or transitively, on a changed
+        # package compiles to the same test binary as on the unchanged tree, where
+        # the suite passes. (cmd/cue/cmd depends on nearly everything and is always in.)
+        changed = set()
+        for l in open(os.path.join(seed, "patch.diff")):
+            mm = re.match(r"\+\+\+ b/(.*)/[^/]+\.go", l)
+            if mm:
+                changed.add("cuelang.org/go/" + mm.group(1))
+        rcl, outl = sh("go list -test -deps -f '{{.ImportPath}}|{{join .Deps \" \"}}' ./... 2>/dev/null", cwd=wt, timeout=900)
+        affected = set()
+        for l in outl.splitlines():
+            if "|" not in l:
+                continue
+            ip, deps = l.split("|", 1)
+            base = ip.split(" ")[0]
+            if base.endswith(".test"):
+                base = base[:-5]
+            if not base.startswith("cuelang.org/go"):
+                continue
+            ds = set(d.split(" ")[0] for d in deps.split(" ")) if False else set(deps.split())
+            if base in changed or (ds & changed):
+                affected.add(base.replace("_test", "") if base.endswith("_test") else base)
+        pkgs = " ".join(sorted("./" + a[len("cuelang.org/go/"):] if a != "cuelang.org/go" else "." for a in affected)) or "./..."
+        res["suite_packages_run"] = len(affected)
+        rct, outt = sh("go test -p 8 -vet=off -count=1 -timeout 60m " + pkgs + " 2>&1 | grep -E '^(FAIL|ok|panic)|--- FAIL' | grep -v '^ok' | head -40", cwd=wt, timeout=4500)
         failing = set(re.findall(r"--- FAIL: (\S+)", outt))
         allowed = {"TestScript", "TestScript/fmt_issue1791", "TestScript/modload_unreadable_file"}
         flaky = {"TestScript/cmd_serve", "TestScript/cmd_concurrent"}
@@ -109,7 +134,7 @@ def main(seed):
         os.makedirs(os.path.dirname(os.path.join(dst, rel)), exist_ok=True)
         shutil.copy(os.path.join(seed, rel), os.path.join(dst, rel))
     meta["breaks_property"] = pid
-    meta["confirmed_by_us"] = {k: res.get(k) for k in ("demo_placement", "demo_cmd", "demo_passes_without_patch", "demo_fails_with_patch", "builds_with_patch", "existing_tests_pass_with_patch", "existing_tests_failures_with_patch")}
+    meta["confirmed_by_us"] = {k: res.get(k) for k in ("demo_placement", "demo_cmd", "demo_passes_without_patch", "demo_fails_with_patch", "builds_with_patch", "existing_tests_pass_with_patch", "existing_tests_failures_with_patch", "suite_packages_run")}
     meta["our_check"] = {k: res.get(k) for k in ("check_cmd", "check_detects", "check_violations", "check_seconds")}
     json.dump(meta, open(os.path.join(dst, "meta.json"), "w"), indent=1)
     print(f"{pid}/{mname}: demo passes without patch={res.get('demo_passes_without_patch')}, fails with patch={res.get('demo_fails_with_patch')}, suite ok={res.get('existing_tests_pass_with_patch')}, check detects={res.get('check_detects')} {viol[:1]}")
